@@ -136,6 +136,30 @@ def native_large_shifts(rng):
     return bad
 
 
+def native_shift_waveform(rng):
+    """shift_waveform on a cluster of waveforms: each waveform is moved by the shift reported for it (by 0: returned unchanged), all traces of a waveform alike"""
+    bad = []
+    for nlen, dt in ((100, np.float64), (121, np.float32), (128, np.float64)):
+        t = np.arange(nlen)
+        base = np.stack([-a_ * np.exp(-0.5 * ((t - nlen * 0.42) / 3.0) ** 2) + 0.3 * a_ * np.exp(-0.5 * ((t - nlen * 0.42 - 10) / 6.0) ** 2) for a_ in (1.0, 0.6, 0.3)])   # (trace, time)
+        for cluster in ("single spike", "identical copies", "jittered"):
+            if cluster == "single spike":
+                wfs = base[None].astype(dt)
+            elif cluster == "identical copies":
+                wfs = np.stack([base] * 4).astype(dt)
+            else:
+                wfs = np.stack([F.fshift(base, s_, axis=-1) for s_ in (0.0, 1.3, -2.0, 0.0, 0.4)]).astype(dt)
+            out, sh = W.shift_waveform(wfs.copy())
+            if out.shape != wfs.shape:
+                bad.append(("shape", nlen, cluster))
+                continue
+            for i in range(wfs.shape[0]):
+                want = F.fshift(wfs[i].astype(float), sh[i], axis=-1)
+                if not np.allclose(out[i], want, atol=1e-5):
+                    bad.append(("waveform not moved by the shift reported for it (a shift of 0 must return it unchanged)", nlen, cluster, i, float(sh[i]), float(np.abs(out[i] - want).max())))
+    return bad
+
+
 def native_many_traces(rng):
     """each trace its own shift, for trace counts that are / are not multiples of 64 (1, 63..65, 100, 200, 384, 385 traces), both axes, float32/64"""
     bad = []
@@ -180,7 +204,7 @@ def native_estimation(rng, amps, lengths=(121, 82, 90, 100, 101, 128, 66)):
 
 
 @bounded(PROPERTY, "native_shift_theorem", bound="full impulse basis for n in 2..48 + {64, 97, 127, 128, 243, 251, 256} (thorough: 2..256 + primes to 2048), both axes, float32/float64, integer shifts incl. 0 and -(n-1), "
-         "composition, analytic band-limited delay, per-trace shifts on both axes (3 traces; and 1, 63, 64, 65, 100, 200, 384, 385 traces of 48 samples), alternating axes with the same length (call history); float32 traces of 1500 / 2048 samples shifted by half a window and more; delay estimation for amplitudes 1, 1e-3, 8e-5 x waveform lengths {121, 82, 90, 100, 101, 128, 66} (odd, 0 and 2 mod 4)",
+         "composition, analytic band-limited delay, per-trace shifts on both axes (3 traces; and 1, 63, 64, 65, 100, 200, 384, 385 traces of 48 samples), alternating axes with the same length (call history); float32 traces of 1500 / 2048 samples shifted by half a window and more; shift_waveform on single-spike / identical / jittered clusters; delay estimation for amplitudes 1, 1e-3, 8e-5 x waveform lengths {121, 82, 90, 100, 101, 128, 66} (odd, 0 and 2 mod 4)",
          clause="integer shift == roll, zero shift == identity, shifts add up, fractional delay, delay estimation")
 def b_native(B):
     rng = np.random.default_rng(B.seed)
@@ -202,6 +226,8 @@ def b_native(B):
     B.case("per_trace_shifts_many_traces", not bad, detail=bad[:6])
     bad = native_large_shifts(rng)
     B.case("float32_large_integer_shifts", not bad, detail=bad[:6])
+    bad = native_shift_waveform(rng)
+    B.case("shift_waveform_clusters", not bad, detail=bad[:6])
     bad = native_estimation(rng, [1.0, 1e-3, 8e-5])
     B.case("delay_estimation", not bad, detail=bad[:6])
 
